@@ -155,11 +155,11 @@ func init() {
 	})
 	api("Float64", func(fr *frame, args []value) value {
 		_, t := cur.newND(args[0].(string), "float64", bvSort(64))
-		return symF{64, "((_ to_fp 11 53) " + t + ")"}
+		return symF{bits: 64, t: "((_ to_fp 11 53) " + t + ")"}
 	})
 	api("Float32", func(fr *frame, args []value) value {
 		_, t := cur.newND(args[0].(string), "float32", bvSort(32))
-		return symF{32, "((_ to_fp 8 24) " + t + ")"}
+		return symF{bits: 32, t: "((_ to_fp 8 24) " + t + ")"}
 	})
 	api("String", func(fr *frame, args []value) value {
 		n := cur.ndName(args[0].(string))
@@ -497,7 +497,7 @@ func init() {
 			}
 			cur.approx("strconv.ParseFloat on symbolic bytes: uninterpreted (ok, value)")
 			ok := cur.fresh("Bool", "pf.ok")
-			val := symF{64, "((_ to_fp 11 53) " + cur.fresh(bvSort(64), "pf.val") + ")"}
+			val := symF{bits: 64, t: "((_ to_fp 11 53) " + cur.fresh(bvSort(64), "pf.val") + ")"}
 			if cur.branch(ok) {
 				return tuple{val, iface{}}
 			}
@@ -775,4 +775,24 @@ func init() {
 	externals["time.runtimeNano"] = func(fr *frame, args []value) value { return int64(1) }
 	externals["time.now"] = func(fr *frame, args []value) value { return tuple{int64(1700000000), int32(0), int64(1)} }
 	externals["runtime.GOROOT"] = func(fr *frame, args []value) value { return "/usr/local/go" }
+}
+
+func init() {
+	externals["internal/bytealg.IndexByteString"] = func(fr *frame, a []value) value {
+		return strings.IndexByte(strArg(a[0]), a[1].(byte))
+	}
+	externals["internal/bytealg.IndexString"] = func(fr *frame, a []value) value {
+		return strings.Index(strArg(a[0]), strArg(a[1]))
+	}
+	externals["internal/bytealg.CountString"] = func(fr *frame, a []value) value {
+		return strings.Count(strArg(a[0]), string([]byte{a[1].(byte)}))
+	}
+	externals["internal/bytealg.MakeNoZero"] = func(fr *frame, a []value) value {
+		n := a[0].(int)
+		out := make([]value, n)
+		for i := range out {
+			out[i] = byte(0)
+		}
+		return out
+	}
 }
